@@ -183,6 +183,10 @@ def run(tier, seed, replay=None):
                                 nx = with_ctx(sx, again)
                                 pairs.append((lang, sd, prev_stage + "-loaded-again", L, prev_tree, nx))
                                 saved[(lang, sd, prev_stage + "-loaded-again")] = pickle.dumps(again)
+                            if saver is not None:
+                                # the driver's flow: the SAME object is saved again right after it was mutated in place, with no
+                                # other save in between (the previous save of this object closed the previous stage)
+                                saver(a, "// text", os.path.join(tmpd, "drv-" + stage[0]))
                             b, _ = roundtrip(b, stage[0])
                             prev_file = os.path.join(tmpd, stage[0] + ".bin")
                         # the stage's comparison
@@ -197,7 +201,8 @@ def run(tier, seed, replay=None):
                             # the driver's flow: the SAME object is saved after every stage (it was mutated in place in between);
                             # each file must hold the program as it was when that file was written
                             dpath = os.path.join(tmpd, "drv-" + stage[0])
-                            saver(a, "// text", dpath)
+                            if stage == "generated":
+                                saver(a, "// text", dpath)
                             fa = U.load_program(dpath + ".bin")
                             sf = ir2coq.Ser(L, fa)
                             sf.names, sf.classes, sf.tvars = dict(sa.names), dict(sa.classes), dict(sa.tvars)
@@ -217,6 +222,8 @@ def run(tier, seed, replay=None):
                         sc.names, sc.classes, sc.tvars = dict(sa.names), dict(sa.classes), dict(sa.tvars)
                         if with_ctx(sc, c) != nb:
                             redump_diff.append((lang, sd, stage))
+                        if saver is not None:
+                            saver(a, "// text", os.path.join(tmpd, "drv-end"))      # the last save of the stage is of the driver's object
                 except Exception as e:          # noqa: BLE001
                     crashes.append((lang, sd, "%s: %s" % (type(e).__name__, str(e)[:150])))
         # directed stream: random trees of the real ast classes with real Contexts (the fuzzers of the translator models):
